@@ -40,7 +40,19 @@ RULE = ("genuine ID token per client setting (expected alg absent/RS256/ES256/HS
         "that session's own request was sent with (generator ground truth) and passes the single-token validator, "
         "nothing else is ever on record as verified, a refusal stores nothing, and where nothing before concerns the "
         "token the verdict is the verdict of the token alone; the model replays every history and evaluates "
-        "C08_nonce_history on it")
+        "C08_nonce_history on it; then RE-USED STATES (the authorization service takes the state from the application: "
+        "request_args['state'] / state keyword): a first round under a state of the application's own choosing or a minted "
+        "one x response type code / code id_token / id_token x what that round got to {nothing, ID Token alone accepted, code "
+        "only, code + ID Token, token response, refresh} x one or two further requests under the SAME state (response type x "
+        "API form) x where the new round stands {nothing back, code back, tokens in}; the genuine ID Token of every earlier "
+        "round (its nonce, its subject) through every channel (authorization response alone / next to the current code / "
+        "next to the earlier code, token response, refresh response), another session's nonce, the earlier nonce presented "
+        "for another session; then the current round's own responses; then the replays again; plus random histories mixing "
+        "own responses, new requests under running states and ID Tokens with the latest / an earlier / another session's "
+        "nonce; oracle: an accepted ID Token carries the nonce of the LATEST request sent under its state (read from the "
+        "request URL), a refusal stores nothing, and as long as only a session's own responses were accepted the current "
+        "round's genuine token is accepted; the model replays every request as the request that went out (the record is "
+        "replaced) and evaluates C08_nonce_history_reused_states on the sequence")
 ASSUMPTIONS = [
     "JWS signatures and HMACs are ideal (Lib/Crypto.v): a signature verifies only under the key that made it, "
     "for exactly the header and payload it was made for",
@@ -50,6 +62,8 @@ ASSUMPTIONS = [
     "JSON numbers are integers (floats are outside the modelled fragment)",
     "the states and nonces the relying party draws (rndstr) are fresh: fed to the model as observed; the history "
     "theorem C08_nonce_history assumes it (fresh_history)",
+    "re-used states: the nonces drawn by the library / supplied by the application are new to the client's key map "
+    "(reuse_history / sound_begin; nothing is assumed about the states); C08_nonce_history_reused_states assumes it",
 ]
 
 
@@ -279,6 +293,8 @@ class Sn:
         self.stage = "P"
         self.sub = None            # subject of the ID Token the RP last accepted for this session
         self.gen = 0
+        self.round = 1             # authorization requests sent under this state so far
+        self.earlier = []          # the rounds before the current one: dict(nonce, code, at, rtok, sub, stage)
 
 
 def h_tok(nonce, sub, code=None, extra=None):
@@ -302,6 +318,8 @@ class Hist:
         self.events = []           # what was delivered, with the verdicts of the oracle
         self.verdicts = []         # (signature, text) - reported once the whole trace is on record
         self.quiet = True          # no earlier delivery carried a value of another session / a foreign member
+        self.strict = False        # (re-used-state families) the current round's genuine token must be accepted
+        self.clean = True          # nothing but stage / control deliveries has been accepted so far
 
     def begin(self, user):
         st, nonce = self.w.begin(H.ISS, "code id_token")
@@ -309,8 +327,65 @@ class Hist:
         self.sessions.append(s)
         return s
 
+    # ---- an authorization request built through the authorization SERVICE (Service.get_request_parameters), the
+    #      API that lets the application choose the state: request_args["state"] or the state keyword argument.
+    #      What the model is told is the request THAT WENT OUT (parsed back from the URL), never the record.
+    def service_request(self, state, response_type, via):
+        from urllib.parse import urlsplit
+        w = self.w
+        before = w.snapshot()
+        srv_ = w.clients[H.ISS].get_service("authorization")
+        args = {"response_type": response_type}
+        if response_type == "code id_token":
+            # for a hybrid response type the service draws no nonce of its own: the application supplies one
+            self.app_nonces = getattr(self, "app_nonces", 0) + 1
+            args["nonce"] = "app-nonce-%d-%s" % (self.app_nonces, state[:6])
+        if via == "args":
+            args["state"] = state
+            info = srv_.get_request_parameters(request_args=args)
+        else:
+            info = srv_.get_request_parameters(request_args=args, state=state)
+        sent = srv_.msg_type().from_urlencoded(urlsplit(info["url"]).query).to_dict()
+        nonce = sent.get("nonce")
+        op = "(OBegin %s %s %s %s)" % (H.coq_str(H.ISS), H.coq_str(state), H.coq_str(nonce), H.coq_dict(sent))
+        w.flows.append({"issuer": H.ISS, "state": state, "nonce": nonce})
+        w._record(op, "begin", {"issuer": H.ISS, "state": state, "nonce": nonce, "via": via, "request": sent},
+                  ("ok", {}), before)
+        if sent.get("state") != state:
+            self.verdicts.append(("reuse-request-under-other-state", "the application asked for a request under state %r, "
+                                  "the request that went out names %r" % (state, sent.get("state"))))
+        return nonce
+
+    def _begin_event(self, s, response_type, via):
+        self.events.append({"session": s.n, "channel": "begin", "role": "begin", "members": {}, "out": "ok", "claims": None,
+                            "accepted": False, "accepted_response": False, "state": s.state, "round": s.round,
+                            "nonce_sent": s.nonce, "response_type": response_type, "via": via})
+
+    def begin_app(self, user, state, response_type="code", via="args"):
+        """first request under a state value of the application's own choosing"""
+        nonce = self.service_request(state, response_type, via)
+        s = Sn(len(self.sessions), state, nonce, user)
+        self.sessions.append(s)
+        self._begin_event(s, response_type, via)
+        return s
+
+    def rebegin(self, s, response_type="code", via="args"):
+        """a further request under the state of session s (re-authentication of a running session, a retry): from
+        now on the nonce that was sent for this state is the nonce of THIS request"""
+        has_record = s.state in self.w.snapshot()[0][1]
+        nonce = self.service_request(s.state, response_type, via)
+        s.earlier.append({"nonce": s.nonce, "code": s.code, "at": s.at, "rtok": s.rtok, "sub": s.sub, "stage": s.stage})
+        s.round += 1
+        s.nonce, s.stage = nonce, "P"
+        s.code, s.at, s.rtok = "Co-h%d-r%d" % (s.n, s.round), "At-h%d-r%d" % (s.n, s.round), "Rt-h%d-r%d" % (s.n, s.round)
+        self.reused = getattr(self, "reused", 0) + (1 if has_record else 0)
+        self.ctx.count("reuse:begin-under-" + ("state-with-record" if has_record else "state-without-record"))
+        self._begin_event(s, response_type, via)
+        return s
+
     # ---- one delivery: the response of `channel` for session s, with an ID Token (nonce, sub) or without one
-    def deliver(self, s, channel, nonce="own", sub=None, members=None, with_code=True, claims=None, role="step"):
+    def deliver(self, s, channel, nonce="own", sub=None, members=None, with_code=True, claims=None, role="step",
+                use_code=None):
         w = self.w
         sub = sub if sub is not None else (s.sub or s.user)
         nonce = s.nonce if nonce == "own" else nonce
@@ -324,7 +399,7 @@ class Hist:
         if channel == "authz":
             params = {"state": s.state}
             if with_code:
-                params["code"] = code = s.code
+                params["code"] = code = use_code or s.code
             if nonce is not False:
                 tok = h_tok(nonce, sub, code, claims)
             params.update(members)
@@ -386,6 +461,9 @@ class Hist:
                                                n in (e["claims"].get("sub"), e["claims"].get("sid")) for e in earlier):
                         # not the nonce of any session: the subject / session id of an ID Token this session got before
                         sig = "history-foreign-nonce-accepted:nonce-is-bound-subject"
+                    elif owner is None and any(n == r["nonce"] for r in s.earlier):
+                        # the nonce of an EARLIER request under this very state (a replayed ID Token of that round)
+                        sig = "history-foreign-nonce-accepted:nonce-of-earlier-request-under-this-state"
                     elif owner is not None:
                         sig = "history-foreign-nonce-accepted:nonce-of-other-session"
                     else:
@@ -403,6 +481,15 @@ class Hist:
                 self.verdicts.append(("history-irrelevant-verdict-differs", "a valid ID Token for session %d (%s response, own nonce, "
                                       "ordinary subject) was refused (%s) although nothing before it in this history concerns "
                                       "its nonce or subject" % (s.n, channel, out[1])))
+            # re-used states: refused deliveries store nothing (checked below), so as long as nothing but the sessions'
+            # own genuine responses has been accepted, the genuine ID Token of the CURRENT round (the nonce that was sent
+            # with the latest request under the state, ordinary subject) is accepted once the session is ready for it
+            if (self.strict and self.clean and role in ("stage", "control") and not bad and not accepted
+                    and STAGES.index(s.stage) >= STAGES.index(ready)):
+                self.verdicts.append(("reuse-current-round-token-refused", "the genuine ID Token of the current round of session "
+                                      "%d (%s response, nonce %r = the nonce sent with request %d under state %r) was refused (%s); "
+                                      "earlier rounds under this state sent %s"
+                                      % (s.n, channel, s.nonce, s.round, s.state, out[1], [r["nonce"] for r in s.earlier])))
             if not bad and not accepted:
                 ctx.count("history:valid-token-refused:" + role)
         # never stored as verified: whatever the stores hold as the verified ID Token of a session carries the
@@ -420,6 +507,8 @@ class Hist:
                                   % (channel, s.n, out[1])))
         ev["accepted_response"] = ok
         self.events.append(ev)
+        if ok and role not in ("stage", "control"):
+            self.clean = False
         if ok and tok is not None and accepted:
             s.sub = tok["claims"].get("sub")
         if ok and channel != "userinfo":      # what the session now has on record (a code, tokens, refreshed tokens)
@@ -445,6 +534,8 @@ class Hist:
     def finish(self, traces):
         rec = {"family": self.family, "sessions": [(s.n, s.state, s.nonce, s.user, s.stage) for s in self.sessions],
                "events": self.events}
+        if any(s.earlier for s in self.sessions):
+            rec["earlier_rounds"] = [(s.n, [r["nonce"] for r in s.earlier]) for s in self.sessions if s.earlier]
         outs = [e["out"] for e in self.events]
         self.ctx.case_seen(rec, nontrivial=len(self.sessions) >= 2 and "ok" in outs and any(o != "ok" for o in outs))
         self.ctx.count("path:history")
@@ -594,6 +685,134 @@ def random_token_history(ctx, world, rng, traces):
     h.finish(traces)
 
 
+# ====================================================================================================
+# Re-used states.  In every history above a request is begun under a state value the library has just minted
+# (StandAloneClient.init_authorization / RPHandler.begin always do).  The authorization SERVICE takes the state from
+# the application (request_args["state"] / the state keyword argument): a second, third ... request may be begun
+# under a state that already has a session record (re-authentication of a running session, a retry after a failed
+# or abandoned round).  "The nonce that was sent" for that state is then the nonce of the LATEST request under it:
+# the genuine ID Token of an earlier round - whatever that round got to before the new request - is a replay and
+# must be refused through every channel; the ID Token of the current round is accepted.
+# ====================================================================================================
+R_TYPES = ("code", "code id_token", "id_token")
+# what the earlier round under the state got to before the next request is begun
+R_STAGES = ("P",       # nothing came back
+            "I",       # its ID Token was accepted at the authorization endpoint, alone (implicit)
+            "C",       # a code came back, no ID Token (code flow)
+            "Z",       # code and ID Token came back (hybrid)
+            "T",       # ... and the token response with its ID Token was processed
+            "R")       # ... and a refresh response with an ID Token
+
+
+def r_advance(h, s, stage):
+    if stage == "I":
+        h.deliver(s, "authz", with_code=False, role="stage")
+    elif stage == "C":
+        h.deliver(s, "authz", nonce=False, role="stage")
+    elif stage != "P":
+        h.advance(s, stage)
+
+
+def r_replays(h, s, tag, other=None):
+    """the genuine ID Token of every earlier round under the state of s (its nonce, the subject that round had),
+    through every channel that takes an ID Token: authorization response (alone / next to the current code / the whole
+    earlier response, i.e. next to the earlier round's code), token response, refresh response; then, when there is
+    another session, that session's nonce, and the earlier nonce of s presented for the other session"""
+    for r in s.earlier:
+        sub = r["sub"] or s.user
+        h.deliver(s, "authz", nonce=r["nonce"], sub=sub, with_code=False, role="probe:" + tag)
+        h.deliver(s, "authz", nonce=r["nonce"], sub=sub, with_code=True, role="probe:" + tag)
+        h.deliver(s, "authz", nonce=r["nonce"], sub=sub, with_code=True, use_code=r["code"], role="probe:" + tag)
+        h.deliver(s, "token", nonce=r["nonce"], sub=sub, role="probe:" + tag)
+        h.deliver(s, "refresh", nonce=r["nonce"], sub=sub, role="probe:" + tag)
+    if other is not None:
+        h.deliver(s, "token", nonce=other.nonce, role="probe:" + tag)
+        for r in s.earlier:
+            h.deliver(other, "token", nonce=r["nonce"], role="probe:" + tag)
+
+
+def reuse_matrix(ctx, world, traces, quick):
+    """how the first state came about (the application's own value / minted by the library) x response type of the
+    first round x what the first round got to x response type and API form of the next request under the same state x
+    where the new round stands when the replays arrive (nothing back yet / its code is back / its tokens are in) x
+    one or two earlier rounds; replays of every earlier round's genuine ID Token through every channel, then the
+    current round's own responses (accepted), then the replays once more against the completed round, and the other
+    session's own token response."""
+    k = 0
+    for origin in ("app", "lib"):
+        for rt1 in R_TYPES:
+            for st1 in R_STAGES:
+                for now in ("P", "C", "T"):
+                    combos = [(rt2, via, rounds) for rt2 in R_TYPES for via in ("args", "kwarg") for rounds in (2, 3)]
+                    if quick:
+                        combos = [combos[(k * 5 + 1) % len(combos)]]
+                    for rt2, via, rounds in combos:
+                        k += 1
+                        h = Hist(ctx, world, "reuse:%s,first=%s@%s,next=%s/%s,rounds=%d,now=%s"
+                                 % (origin, rt1, st1, rt2, via, rounds, now))
+                        h.strict = True
+                        B = h.begin("bob")
+                        if origin == "app":
+                            A = h.begin_app("diana", "app-session-%d" % k, rt1, via)
+                        else:
+                            A = h.begin("diana")
+                        h.advance(B, "Z")
+                        r_advance(h, A, st1)
+                        for n in range(2, rounds + 1):
+                            h.rebegin(A, rt2 if n == rounds else rt1, via)
+                            if n < rounds:      # the round in between gets as far as the first one did
+                                r_advance(h, A, st1)
+                        r_advance(h, A, now)
+                        r_replays(h, A, "replay", B)
+                        # the current round completes with its own responses ...
+                        h.deliver(A, "authz", role="control")
+                        h.deliver(A, "token", role="control")
+                        h.deliver(A, "refresh", role="control")
+                        # ... the replays are as unacceptable for the completed round ...
+                        r_replays(h, A, "replay-after")
+                        # ... and the other session is still its own
+                        h.deliver(B, "token", role="control")
+                        h.finish(traces)
+
+
+def random_reuse_history(ctx, world, rng, traces):
+    """2-3 sessions (states of the application's choosing or minted), 5-9 steps: a session's own next response, a new
+    request under the state of a running session, or an ID Token whose nonce is drawn from {the nonce of the latest
+    request under the state, the nonce of an earlier request under it, another session's latest / earlier nonce}."""
+    h = Hist(ctx, world, "reuse-random")
+    h.strict = True
+    ss = []
+    for i, u in enumerate(("diana", "bob", "carol")[:rng.randint(2, 3)]):
+        if rng.random() < 0.5:
+            ss.append(h.begin_app(u, "app-%s-%d" % (u, rng.randint(0, 99)), rng.choice(R_TYPES), rng.choice(("args", "kwarg"))))
+        else:
+            ss.append(h.begin(u))
+    first = rng.choice(ss)
+    r_advance(h, first, rng.choice(R_STAGES))
+    h.rebegin(first, rng.choice(R_TYPES), rng.choice(("args", "kwarg")))
+    for _ in range(rng.randint(5, 9)):
+        s = rng.choice(ss)
+        o = rng.choice([x for x in ss if x is not s])
+        r = rng.random()
+        if r < 0.2:
+            h.rebegin(s, rng.choice(R_TYPES), rng.choice(("args", "kwarg")))
+            continue
+        if r < 0.45:
+            r_advance(h, s, rng.choice(R_STAGES[1:]))
+            continue
+        channel = rng.choice(["authz", "authz", "token", "token", "refresh"])
+        pool = [("own", None)] + [(x["nonce"], x["sub"]) for x in s.earlier] * 3 + [(o.nonce, None)] + \
+               [(x["nonce"], x["sub"]) for x in o.earlier]
+        nonce, sub = rng.choice(pool)
+        kw = {}
+        if channel == "authz":
+            kw["with_code"] = rng.random() < 0.6
+            if kw["with_code"] and s.earlier and rng.random() < 0.4:
+                kw["use_code"] = rng.choice(s.earlier)["code"]
+        h.deliver(s, channel, nonce=nonce, sub=sub, role="control" if nonce == "own" and not kw.get("use_code") else "random", **kw)
+    h.finish(traces)
+
+
 def encrypted_matrix(rng, faults, quick):
     """The JWE dimension crossed with the fault matrix: a well-formed JWE for the RP's key around every
     signature / algorithm / key / kid fault and a sample of the claim faults; every other JWE variant (foreign
@@ -732,6 +951,11 @@ def run(ctx):
     history_matrix(ctx, hworld, hist, ctx.quick)
     for _ in range(150 if ctx.quick else 3000):
         random_token_history(ctx, hworld, rng, hist)
+    # ---- histories with requests begun under states that already have a record (after every older family)
+    reuse = []
+    reuse_matrix(ctx, hworld, reuse, ctx.quick)
+    for _ in range(60 if ctx.quick else 2000):
+        random_reuse_history(ctx, hworld, rng, reuse)
     clock.uninstall()
     H.check_cases(ctx, H.RESP_IMPORTS, H.RESP_TYPE, "chk_resp_case", msg_cases, shard=400, label="msg",
                   diag="run_resp_case")
@@ -740,6 +964,12 @@ def run(ctx):
     # chk_history = the model replays the trace (chk_trace) AND, in the model, every accepted ID Token carries the
     # nonce sent for its session (the statement of C08_nonce_history evaluated on the sequence)
     H.check_cases(ctx, H.TRACE_IMPORTS, H.TRACE_TYPE, "chk_history", hist, shard=40, label="hist",
+                  diag="first_bad_step")
+    # chk_reuse_class (Model/RpReuse.v) = the model replays the trace - a request under a state that has a record
+    # REPLACES the record - AND every accepted ID Token carries the nonce of the LATEST request under its state (the
+    # statement of C08_nonce_history_reused_states evaluated on the sequence) AND every request put on record names
+    # the nonce that went out AND the trace does begin a request under a state that has a record
+    H.check_cases(ctx, H.TRACE_IMPORTS + ["Model.RpReuse"], H.TRACE_TYPE, "chk_reuse_class", reuse, shard=40, label="reuse",
                   diag="first_bad_step")
     if not ctx.quick:   # evidence only: how much of a sample the model itself places outside its fragment
         count_unmodelled(ctx, H.RESP_IMPORTS, H.RESP_TYPE, "unmodelled_resp_case", msg_cases[:1600], "msg")
